@@ -78,30 +78,52 @@ def partial_reduce_loop(c, kind):
         box = tuple((g0["box"][i][0], gl["box"][i][1]) if i == ax else g0["box"][i] for i in range(len(g0["box"])))
         return dict(src=g0["src"], box=box, cond=[])
 
+    def fields_of(interp, fr):
+        """structured reductions (mean, var, arg reductions): the kernels return a dict of per-field blocks; the running
+        result is then a dict with the same fields"""
+        cache = fr.locals.get("__fields__", "unset")
+        if cache != "unset":
+            return cache
+        arrays, axis = fr.locals["arrays"], fr.locals["axis"]
+        rf, init = fr.locals.get("reduce_func"), fr.locals.get("initial_func")
+        off = interp.ctx.meter
+        interp.ctx.meter = None
+        try:
+            b0 = arrays.get(interp, 0)
+            sample = interp.call(init, [b0], {}) if init is not None else b0
+            probe = interp.call(rf, [sample], dict(axis=axis, keepdims=True))
+        finally:
+            interp.ctx.meter = off
+        fields = tuple(probe.keys()) if isinstance(probe, dict) else None
+        fr.locals["__fields__"] = fields
+        return fields
+
+    def one_block(interp, fr, j):
+        shp, dt = shape_after(interp, fr, j)
+        blk = SymBlock(shp, dt, None, "partial")
+        blk.agg = agg_after(interp, fr, j)
+        return blk
+
     def havoc(interp, fr, j):
         if interp.truth(j == 0):
             fr.locals["result"] = None
         else:
-            shp, dt = shape_after(interp, fr, j)
-            blk = SymBlock(shp, dt, None, "partial")
-            blk.agg = agg_after(interp, fr, j)
-            fr.locals["result"] = blk
+            fields = fields_of(interp, fr)
+            if fields is None:
+                fr.locals["result"] = one_block(interp, fr, j)
+            else:
+                fr.locals["result"] = {f: one_block(interp, fr, j) for f in fields}
 
-    def holds(interp, fr, j):
-        res = fr.locals.get("result")
-        if res is None:
-            yield "none-iff-nothing-folded", j == 0
-            return
-        yield "none-iff-nothing-folded", j != 0
+    def holds_block(interp, fr, j, res, tag=""):
         shp, _ = shape_after(interp, fr, j)
-        yield "rank", len(res.shape) == len(shp)
+        yield f"rank{tag}", len(res.shape) == len(shp)
         for i, (a, b) in enumerate(zip(res.shape, shp)):
-            yield f"extent[{i}]", a == b
+            yield f"extent[{i}]{tag}", a == b
         want = agg_after(interp, fr, j)
         if want is not None:
             got = getattr(res, "agg", None)
             if got is None or got["src"] != want["src"] or len(got["box"]) != len(want["box"]):
-                yield "aggregates-the-first-j-blocks-each-once", False
+                yield f"aggregates-the-first-j-blocks-each-once{tag}", False
             else:
                 import z3 as _z3
                 from pyvc.sym import tz as _tz
@@ -109,7 +131,25 @@ def partial_reduce_loop(c, kind):
                 terms = list(got["cond"])
                 for (l1, h1), (l2, h2) in zip(got["box"], want["box"]):
                     terms += [_tz(l1) == _tz(l2), _tz(h1) == _tz(h2)]
-                yield "aggregates-the-first-j-blocks-each-once", _z3.And(*terms)
+                yield f"aggregates-the-first-j-blocks-each-once{tag}", _z3.And(*terms)
+
+    def holds(interp, fr, j):
+        res = fr.locals.get("result")
+        if res is None:
+            yield "none-iff-nothing-folded", j == 0
+            return
+        yield "none-iff-nothing-folded", j != 0
+        fields = fields_of(interp, fr)
+        if fields is None:
+            yield "is-a-block", isinstance(res, SymBlock)
+            if isinstance(res, SymBlock):
+                yield from holds_block(interp, fr, j, res)
+        else:
+            ok = isinstance(res, dict) and tuple(res.keys()) == tuple(fields)
+            yield "is-a-dict-of-the-kernel's-fields", ok
+            if ok:
+                for f in fields:
+                    yield from holds_block(interp, fr, j, res[f], f"[{f}]")
 
     return ForInvariant("_partial_reduce.fold", havoc, holds)
 
@@ -255,6 +295,10 @@ class PartialReduce(ArrayOpSpec):
         from pyvc.sym import tz
 
         def hook(it, rec, tag, j, blk):
+            if isinstance(blk, dict):  # structured result: every field aggregates the group
+                for f, v in blk.items():
+                    hook(it, rec, f"{tag}[{f}]", j, v)
+                return
             ctx = it.ctx
             oc = rec.oc
             n, cs, nb = x.shape[ax], x.chunksize[ax], x.numblocks[ax]
@@ -296,6 +340,57 @@ class PartialReduce(ArrayOpSpec):
         nd = cfg["ndim"]
         return ({"x": (nd, None)}, f"lambda xp, a: xp.cumulative_sum(a['x'], axis={cfg['axes'][0]})",
                 f"lambda np, a: np.cumsum(a['x'], axis={cfg['axes'][0]})")
+
+
+class FieldsInit:
+    """initial function of a structured reduction (mean, var, arg reductions): a block -> dict of per-field reduced
+    blocks (assumed shape contract of the per-block kernels)"""
+
+    _pyvc_keywords = ("axis", "keepdims")
+    _pyvc_is_gen = False
+
+    def __init__(self, fields, axis):
+        self.fields, self.axis = fields, axis
+        self.__name__ = "init_fields"
+
+    def __call__(self, x, **kw):
+        r = ReduceFn("reduce", "init")
+        return {f: r(x, axis=self.axis, keepdims=True) for f in self.fields}
+
+
+@register
+class PartialReduceStructured(ArrayOpSpec):
+    """partial_reduce with a structured intermediate (the mean/var/arg-reduction route: the kernels return a dict of
+    per-field blocks, `_partial_reduce` folds field by field): every field of the block a task returns has the shape of
+    the region and aggregates exactly the task's group of input blocks."""
+
+    target = f"{OPS}:partial_reduce"
+    name = f"{OPS}:partial_reduce[structured]"
+    props = ("C12", "C01")
+    quick_props = ("C12",)
+
+    def configs(self, tier):
+        return [dict(ndim=1)] + ([dict(ndim=2)] if tier != "quick" else [])
+
+    def install(self, c):
+        gb.install(c)
+        install_partial_reduce_loop(c, "reduce")
+
+    def setup(self, c):
+        from pyvc.arrays import Dtype
+
+        nd = c.cfg["ndim"]
+        x = sym_array(c, "x", nd)
+        split = {0: c.int("split0", lo=2)}
+        dt = [("n", Dtype("int64", 8)), ("total", Dtype("float64", 8))]
+        c.expect_origin = None
+        kw = dict(func=ReduceFn("reduce"), initial_func=FieldsInit(("n", "total"), (0,)), split_every=split, dtype=dt)
+        c.check_result_block = PartialReduce._group_clause(c, x, 0, split[0])
+        return (x,), kw
+
+    def ensures(self, c, a, k, res):
+        s_ = k["split_every"][0]
+        yield "numblocks", res.numblocks[0] == (a[0].numblocks[0] + s_ - 1) // s_
 
 
 @register
